@@ -30,6 +30,8 @@ func c02(c *Ctx) {
 	w.keySource("C02.key-source")
 	w.rsv1("C02.rsv1")
 	w.continuation("C02.continuation")
+	r.Rule("C02.mask-impl", "maskBytes: the raw-pointer word store (the only unsafe store of the package) addresses &b[0]+i with i = 0, W, 2W, ... < (len(b)/W)*W, W = sizeof(uintptr) on the build variant, and stores W bytes; the go/ssa-visible index/slice sites of maskBytes are proved by C07.panic-sites; that word-wise XOR equals byte-wise XOR is not decided")
+	w.maskImpl("C02.mask-impl")
 	t := newTransport(c)
 	c10invalidAs(c, t, "C02.control-shape")
 }
